@@ -135,6 +135,7 @@ type FuncSpec struct {
 	// SliceAlias: `v := x[:n]` makes v a window onto x: a call that writes through v (LocalOut) also writes x (`let x := GoX.setSliceTo x n v`),
 	// and an out-parameter argument `x[n:]` is written back with GoX.setSliceFrom.
 	SliceAlias bool
+	TypeSwitch bool // `switch v := x.(type) { case T: .. }` -> match chain over the model's `(x).as_T : Option _` views (first matching case wins, as in Go)
 }
 
 // StructLit: `&pkg.T{K: V, ...}` becomes `({ K := V, ... } : Lean)`, restricted to the fields in Keep.
@@ -1862,6 +1863,10 @@ func (t *tr) block(stmts []ast.Stmt, k cont) string {
 		}
 		return t.switchStmt(x, rest)
 	case *ast.TypeSwitchStmt:
+		if t.spec.TypeSwitch {
+			// (C04/C07) match chain over the model's `(x).as_T : Option _` views
+			return t.typeSwitchStmt(x, rest)
+		}
 		if t.spec.TypeCases == nil {
 			// without a TypeCases table the flag-based rule of translate_ext.go applies (`(x).is_T`)
 			if out, ok := t.stmtExt(s, stmts, k); ok {
@@ -2070,6 +2075,58 @@ func (t *tr) switchStmt(s *ast.SwitchStmt, cont cont) string {
 		out.WriteString(cont())
 	}
 	return "(" + out.String() + ")"
+}
+
+// switch v := x.(type) { case T1: B1; case T2: B2; default: D }   (FuncSpec.TypeSwitch)
+//
+//	->   match (x).as_T1 with | some v => B1 | none => match (x).as_T2 with | some v => B2 | none => D
+//
+// The model type of x supplies the views `as_T : _ -> Option _`; the cases are tried in source order.
+func (t *tr) typeSwitchStmt(s *ast.TypeSwitchStmt, cont cont) string {
+	if s.Init != nil {
+		return t.bad("type switch init", s)
+	}
+	v := "_"
+	var ta *ast.TypeAssertExpr
+	switch a := s.Assign.(type) {
+	case *ast.AssignStmt:
+		if len(a.Lhs) == 1 && len(a.Rhs) == 1 {
+			v = exprString(a.Lhs[0])
+			ta, _ = a.Rhs[0].(*ast.TypeAssertExpr)
+		}
+	case *ast.ExprStmt:
+		ta, _ = a.X.(*ast.TypeAssertExpr)
+	}
+	if ta == nil || ta.Type != nil {
+		return t.bad("type switch guard", s)
+	}
+	subject := t.expr(ta.X)
+	var def *ast.CaseClause
+	var out strings.Builder
+	closers := 0
+	for _, c := range s.Body.List {
+		cc := c.(*ast.CaseClause)
+		if cc.List == nil {
+			def = cc
+			continue
+		}
+		if len(cc.List) != 1 {
+			return t.bad("type switch case with several types", cc)
+		}
+		t.indent++
+		body := t.block(cc.Body, cont)
+		t.indent--
+		out.WriteString("(match (" + subject + ").as_" + strings.TrimPrefix(typeAssertName(cc.List[0]), "*") + " with\n" + t.pad() + "| some " + v + " =>\n" + t.pad() + "  " + body + "\n" + t.pad() + "| none =>\n" + t.pad())
+		closers++
+	}
+	if def != nil {
+		t.indent++
+		out.WriteString(t.block(def.Body, cont))
+		t.indent--
+	} else {
+		out.WriteString(cont())
+	}
+	return out.String() + strings.Repeat(")", closers)
 }
 
 // translateFunc renders one Lean definition.
